@@ -28,7 +28,12 @@ theorem roundtrip_S (cfg : Cfg) (al : Bool) (ty : Ty) (hS : ty.fragS cfg = true)
     (hp : ty.pow2Aligned cfg) (v : Val) (hv : HasTy cfg v ty) (pos : Nat) (hal : ty.alignsDivide cfg pos = true) (bs : Bytes)
     (hw : write cfg ty v pos = .ok bs) (pre post : Bytes) (hpre : pre.length = pos) (ctx : Ctx) :
     read cfg ty ctx (pre ++ bs ++ post) pos = .ok (v, pos + bs.length) := by
-  sorry
+  obtain ⟨bs', k, w, _, l, r⟩ := Lemmas.wr_ty cfg al ty hS hu hp v hv pos
+    (fun _ => Lemmas.sAlign_dvd_of_alignsDivide cfg pos ty hal)
+  rw [hw] at w
+  cases w
+  rw [l]
+  exact r pre post ctx hpre
 
 /-- **Writing is total on values of the type (fragment S)** and produces exactly `size` bytes when the start is aligned
     (any start in packed mode): a value that fits is never refused. -/
@@ -36,7 +41,9 @@ theorem write_total_S (cfg : Cfg) (al : Bool) (ty : Ty) (hS : ty.fragS cfg = tru
     (hp : ty.pow2Aligned cfg) (v : Val) (hv : HasTy cfg v ty)
     (pos : Nat) (hal : ty.alignsDivide cfg pos = true) :
     ∃ bs, write cfg ty v pos = .ok bs ∧ ty.size cfg = some bs.length := by
-  sorry
+  obtain ⟨bs, k, w, s, l, _⟩ := Lemmas.wr_ty cfg al ty hS hu hp v hv pos
+    (fun _ => Lemmas.sAlign_dvd_of_alignsDivide cfg pos ty hal)
+  exact ⟨bs, w, by rw [l]; exact s⟩
 
 /-- **An integer that does not fit is rejected (never truncated or wrapped)**, for integer, enum and pointer fields. -/
 theorem write_reject (cfg : Cfg) (s : Scalar) (a : Nat) (f : Bool) (t : Ty) (v : Int) (pos : Nat) :
@@ -72,4 +79,7 @@ example : HasTy cfg0 v0 ty0 := by
   exact .struct (.cons (.int rfl (by decide)) (.cons (.struct (.cons (.int rfl (by decide)) (.cons (.chars rfl) .nil)))
     (.cons (.ptr (by decide)) .nil)))
 
+#print axioms roundtrip_S
+#print axioms write_total_S
+#print axioms write_reject
 end Cstruct.Core
